@@ -772,9 +772,9 @@ def rule_integer_arrays_stay_integer(eng, rep, rule="C20-7.integer-valued-result
                 if "float" in parts:
                     return "float"
                 return "int" if "int" in parts else None
-            if fn == "append" and len(e.args) >= 2:
+            if (fn == "append" and len(e.args) >= 2) or (fn == "insert" and len(e.args) >= 3):
                 a0 = dtype_of(fi, cfg, at, e.args[0], sn, depth)
-                a1 = dtype_of(fi, cfg, at, e.args[1], sn, depth)
+                a1 = dtype_of(fi, cfg, at, e.args[1] if fn == "append" else e.args[2], sn, depth)
                 if a0 == "int" and a1 in ("int", None):
                     return "int"              # a name appended to an integer array: its value is a counter (C03-1 / C17-3)
                 return "float" if "float" in (a0, a1) else None
